@@ -1530,6 +1530,10 @@ def evalf(r, env, _memo=None):
             n = a.name
             if n == 'def':
                 v = evalf(a.args[0], env, memo)
+            elif n == 'ite' and len(a.args) == 3 and all(isinstance(x, Rat) for x in a.args):
+                # lazily: only the arm that is taken needs a value
+                c_ = evalf(a.args[0], env, memo)
+                v = evalf(a.args[1] if abs(c_) != 0 else a.args[2], env, memo)
             else:
                 args = [evalf(x, env, memo) if isinstance(x, Rat) else None for x in a.args]
                 if any(x is None for x in args):
